@@ -509,45 +509,105 @@ func isAppendOfSame(st *ssa.Store, f *types.Var) bool {
 // loaded slice is ranged over with each element called or handed to a callee.
 func drained(p *Prog, st *ssa.Store, f *types.Var) bool {
 	fn := st.Parent()
-	loops := blocksInLoops(fn)
 	for _, ld := range p.loads[f] {
 		li, ok := ld.(ssa.Instruction)
 		if !ok || li.Parent() != fn || !dominates(li, st) {
 			continue
 		}
 		lv := ld.(ssa.Value)
-		// derived values: the load itself, or re-loads of a cell it was stored to
-		derived := map[ssa.Value]bool{lv: true}
-		for _, r := range *lv.Referrers() {
-			if s2, ok := r.(*ssa.Store); ok && s2.Val == lv {
-				if al, ok := s2.Addr.(*ssa.Alloc); ok {
-					for _, r2 := range *al.Referrers() {
-						if u, ok := r2.(*ssa.UnOp); ok && u.Op == token.MUL {
-							derived[u] = true
-						}
+		if consumedInLoop(lv) {
+			return true
+		}
+		// a "take" helper: the loaded content is returned, and every caller drains the result
+		if returnsValue(fn, lv) && fn.Parent() == nil {
+			n, all := 0, true
+			if node := p.CG.Nodes[fn]; node != nil {
+				for _, e := range node.In {
+					if e.Site == nil || e.Site.Common().StaticCallee() != fn {
+						continue
+					}
+					cv, ok := e.Site.(ssa.Value)
+					if !ok {
+						all = false
+						continue
+					}
+					n++
+					if !consumedInLoop(cv) {
+						all = false
+					}
+				}
+			}
+			if n > 0 && all {
+				return true
+			}
+		}
+	}
+	return false
+}
+
+// derivedOf: the value itself and re-loads of a local cell it was stored to.
+func derivedOf(lv ssa.Value) map[ssa.Value]bool {
+	derived := map[ssa.Value]bool{lv: true}
+	if lv.Referrers() == nil {
+		return derived
+	}
+	for _, r := range *lv.Referrers() {
+		if s2, ok := r.(*ssa.Store); ok && s2.Val == lv {
+			if al, ok := s2.Addr.(*ssa.Alloc); ok {
+				for _, r2 := range *al.Referrers() {
+					if u, ok := r2.(*ssa.UnOp); ok && u.Op == token.MUL {
+						derived[u] = true
 					}
 				}
 			}
 		}
-		for d := range derived {
-			for _, r := range *d.Referrers() {
-				var elem ssa.Value
-				switch x := r.(type) {
-				case *ssa.IndexAddr:
-					for _, r2 := range *x.Referrers() {
-						if u, ok := r2.(*ssa.UnOp); ok && u.Op == token.MUL {
-							elem = u
-						}
-					}
-				case *ssa.Index:
-					elem = x
-				}
-				if elem == nil || !loops[elem.(ssa.Instruction).Block()] {
-					continue
-				}
-				if elemConsumed(elem) {
+	}
+	return derived
+}
+
+func returnsValue(fn *ssa.Function, lv ssa.Value) bool {
+	d := derivedOf(lv)
+	for _, in := range instrsOf(fn) {
+		if r, ok := in.(*ssa.Return); ok {
+			for _, x := range r.Results {
+				if d[x] {
 					return true
 				}
+			}
+		}
+	}
+	return false
+}
+
+// consumedInLoop: the slice value is ranged over with each element called or
+// handed to a callee.
+func consumedInLoop(lv ssa.Value) bool {
+	in, ok := lv.(ssa.Instruction)
+	if !ok {
+		return false
+	}
+	loops := blocksInLoops(in.Parent())
+	for d := range derivedOf(lv) {
+		if d.Referrers() == nil {
+			continue
+		}
+		for _, r := range *d.Referrers() {
+			var elem ssa.Value
+			switch x := r.(type) {
+			case *ssa.IndexAddr:
+				for _, r2 := range *x.Referrers() {
+					if u, ok := r2.(*ssa.UnOp); ok && u.Op == token.MUL {
+						elem = u
+					}
+				}
+			case *ssa.Index:
+				elem = x
+			}
+			if elem == nil || !loops[elem.(ssa.Instruction).Block()] {
+				continue
+			}
+			if elemConsumed(elem) {
+				return true
 			}
 		}
 	}
